@@ -16,7 +16,7 @@ from ..absint import k3 as K3
 from ..absint.ctx import ref_to
 from ..cfg import CFG, call_graph, reachable_bodies
 from ..facts import Broken, callee_name, span_loc
-from ..mirq import DefUse
+from ..mirq import expr, DefUse
 from ..report import Finding
 
 LEVEL = "other"
@@ -192,6 +192,22 @@ def _k3(facts, rep, sites, out):
             return [ref_to(I, st, row), ref_to(I, st, OpaqueV("fmt::Formatter"), True), ref_to(I, st, flags)]
         I, v, st = K3.run_fn(facts, b.name, a_disp, "K3 row rendering, any flags")
         warns += _merge(sites, I)
+    # display flags from an -i list of any length and content
+    try:
+        from ..optexpr import eval_option_arg, find_flags_site
+        from ..absint.domain import TBIT, VecV
+        from ..absint.models2 import charset
+        fb, fbi, ft = find_flags_site(facts)
+        fdu = DefUse(fb)
+        anystr = charset({l: TBIT for l in "wasAeQ"})
+        lst = VecV(None, IntV("usize", None, 0, 1 << 20), anystr)
+        I, v, st = K3.run_fn(facts, callee_name(ft), lambda I, st: [eval_option_arg(I, st, expr(fdu, a), lst) for a in ft["args"]],
+                             "K3 display flags, any -i list")
+        warns += _merge(sites, I)
+        if v is None:
+            rep.add(Finding("R01.1", "definite panic : display flags", "building the display flags panics for every -i list", None))
+    except Broken:
+        pass      # unrecognised construction shape: C14 R14.7 reports it
     for w in warns:
         rep.add(Finding("R01.1", "unmodelled callee : %s" % w[1], "the options/presentation path calls %s, which has no reviewed model (context '%s')" % (w[1], w[2]), None))
 
